@@ -335,6 +335,7 @@ func newRuntimeState(compiled config.Compiled) *runtimeState {
 }
 
 func (s *runtimeState) updateAll(compiled config.Compiled) {
+	defer verifhook.Point("state.write-unlocked")
 	s.mu.Lock()
 	defer s.mu.Unlock()
 	s.updateAllLocked(compiled)
@@ -1012,6 +1013,7 @@ func (s *runtimeState) loadAuthAnd(compiled config.Compiled, alsoLocked func()) 
 		alsoLocked()
 	}
 	s.mu.Unlock()
+	verifhook.Point("state.write-unlocked")
 	return nil
 }
 
